@@ -172,11 +172,19 @@ def gen_case(ci, labels, perm, kind, auto, etag=None):
 
 def run(ctx):
     quick = ctx.quick
-    cfg = "CONSTANTS\n  MaxLabels = 3\n  MaxVals = %d\nSPECIFICATION Spec\nINVARIANTS Emit Bijective TryGetExact\nCHECK_DEADLOCK FALSE\n" % (2 if quick else 3)
-    r = tlc(ctx, "StaticMetric", cfg, workers=8, label="gen", timeout=3000, heap="8g")
-    if not r["ok"]:
-        raise ToolError("StaticMetric failed: %s\n%s" % (r["violated"], r["output"][-3000:]))
-    decls = printed_values(r["output"], "CASE")
+    # TLC generates (and checks) initial states on one thread: the thorough enumeration is cut into slices run as parallel TLC processes
+    parts = 1 if quick else 12
+    cfgs = ["CONSTANTS\n  MaxLabels = 3\n  MaxVals = %d\n  PartN = %d\n  PartK = %d\nSPECIFICATION Spec\nINVARIANTS Emit Bijective TryGetExact\nCHECK_DEADLOCK FALSE\n" % (2 if quick else 3, parts, k) for k in range(parts)]
+    import concurrent.futures as cf
+    with cf.ThreadPoolExecutor(max_workers=parts) as ex:
+        rs = list(ex.map(lambda kc: tlc(ctx, "StaticMetric", kc[1], workers=1 if parts > 1 else 8, label="gen%d" % kc[0], timeout=5000, heap="4g" if parts > 1 else "8g"), enumerate(cfgs)))
+    decls = []
+    for r in rs:
+        if not r["ok"]:
+            raise ToolError("StaticMetric failed: %s\n%s" % (r["violated"], r["output"][-3000:]))
+        decls += printed_values(r["output"], "CASE")
+    if not quick and min(r["distinct"] for r in rs) * 4 < max(r["distinct"] for r in rs):
+        log("note: unbalanced StaticMetric slices %s" % [r["distinct"] for r in rs])
     rnd = random.Random(ctx.seed)
     n = 30 if quick else 300
     # stratified sample: all label counts, enum/inline mixes, every kind, non-identity permutations preferred
